@@ -34,7 +34,14 @@ impl Duration {
 
     /// Create an instance with the given amount of seconds
     pub fn from_seconds(secs: f64) -> Self {
-        let inner = secs.az::<I96F32>() * 1_000_000_000.to_fixed::<I96F32>();
+        // Saturate: the argument is typically a filter estimate, which hostile
+        // measurements can push beyond the representable range.
+        if secs.is_nan() {
+            return Self::ZERO;
+        }
+        let inner = secs
+            .saturating_to_fixed::<I96F32>()
+            .saturating_mul(1_000_000_000.to_fixed::<I96F32>());
         Self { inner }
     }
 
